@@ -88,6 +88,8 @@ def all_configs(mode=None):
         Config('ParCons(b=0,Copeland)', lambda: ParCons(CopelandMethod(), 0), {'parcons', 'fast'}),
         Config('ParCons(b=2)', lambda: ParCons(bound_for_exact=2), {'parcons', solver}),
         Config('ParCons(b=3,KwikSort)', lambda: ParCons(KwikSortRandom(), 3), {'parcons', 'kwik', solver}),
+        Config('ParCons(b=3,Copeland)', lambda: ParCons(CopelandMethod(), 3), {'parcons', solver, 'b3'}),
+        Config('ParCons(b=3,Borda)', lambda: ParCons(BordaCount(), 3), {'parcons', solver, 'b3', 'needs_borda'}),
     ]
     for c in C:
         if 'bio' in c.tags:
@@ -134,16 +136,18 @@ def documented_refusals():
             IncompatibleArgumentsException)
 
 
-def run_config(cfg, dataset, scheme, one, choices=None, timeout=60):
+def run_config(cfg, dataset, scheme, one, choices=None, timeout=60, alg=None):
     """One execution under a scripted schedule.  Returns (status, value, trace):
-    status 'ok' (Consensus), 'refused' (documented exception), 'exc' (anything else), 'timeout'."""
+    status 'ok' (Consensus), 'refused' (documented exception), 'exc' (anything else), 'timeout'.
+    `alg`: an existing algorithm object to REUSE (default: a fresh one from cfg.factory())."""
     refusals = documented_refusals()
     ch = chooser.Chooser(choices or [])
     status, value = None, None
     with ch:
         try:
             with harness.watchdog(timeout):
-                alg = cfg.factory()
+                if alg is None:
+                    alg = cfg.factory()
                 value = alg.compute_consensus_rankings(dataset, scheme, one)
                 status = 'ok'
         except refusals as e:
